@@ -4,6 +4,7 @@
 -/
 import CstModel.Model.Tree
 import CstModel.Model.Query
+import CstModel.Model.SyntaxText
 namespace Cst.Drv
 
 structure RState where
@@ -27,6 +28,7 @@ structure DState where
   /-- canonical numbering of ghost ids by first appearance (per case) -/
   idMap : List (Nat × Nat) := []
   red : RState := {}
+  views : Array (Nat × Red.View) := #[]
   /-- debug-abbreviation window of `SyntaxToken::write_debug` (from SourceFacts) -/
   dbgWindow : Nat × Nat × Nat := (25, 21, 25)
 
@@ -36,7 +38,7 @@ def DState.cfg (s : DState) : Cfg :=
 
 def DState.resetCase (s : DState) : DState :=
   { s with interners := #[], caches := #[], builder := none, failNext := false, cps := #[],
-           greens := #[], idMap := [], red := {} }
+           greens := #[], idMap := [], red := {}, views := #[] }
 
 /-- parse `<prefix><n>` -/
 def parseRef (pfx : Char) (s : String) : Option Nat :=
